@@ -7,7 +7,10 @@ Case (driver "cut"):
           byte of the PROTOCOLINFO reply, so small offsets cut the authentication handshake) at
           which connectionLost happens - the loss occurs as soon as that many bytes were delivered;
    "reason": "done"|"lost"|"other", "pre_wd": 0..2 when_disconnected() requests made before,
-   "post_cmds": 0..4 commands submitted after the loss, "post_wd": 0..2 requests after the loss}
+   "post_cmds": 0..4 commands submitted after the loss, "post_wd": 0..2 requests after the loss,
+   "resubmit": n  every session command's errback submits n further commands (a retry handler running
+                  *during* connectionLost), "wd_reenter": the first when_disconnected() observer, while being
+                  notified, requests notification again and submits a command}
 Driver "allcuts": same without "cut"; runs the session once per byte offset 0..len(stream).
 """
 from __future__ import annotations
@@ -47,12 +50,14 @@ REASONS = {
 
 
 def sessions():
-    return st.builds(lambda c, s, r, pre, pc, pw: {"cmds": c, "sched": s, "reason": r, "pre_wd": pre,
-                                                   "post_cmds": pc, "post_wd": pw},
+    return st.builds(lambda c, s, r, pre, pc, pw, rs, wr: {"cmds": c, "sched": s, "reason": r, "pre_wd": pre,
+                                                           "post_cmds": pc, "post_wd": pw, "resubmit": rs,
+                                                           "wd_reenter": wr},
                      st.lists(c01.commands(long=False, max_parts=3), min_size=0, max_size=5),
                      c01.schedules(),
                      st.sampled_from(["done", "lost", "other"]),
-                     st.integers(0, 2), st.integers(0, 4), st.integers(0, 2))
+                     st.integers(0, 2), st.integers(0, 4), st.integers(0, 2),
+                     st.sampled_from([0, 0, 1, 2]), st.booleans())
 
 
 @st.composite
@@ -81,6 +86,8 @@ class _CutRun(object):
         self.wd = []
         self.queued_behind_at_cut = 0
         self.cut_inside_reply = False
+        self.wd_reentered = False
+        self.resubmitted = 0
 
         self.srv = ScriptedServer(self._handler)
         self.pipe = ControlPipe(self.srv, auto=False)
@@ -88,11 +95,22 @@ class _CutRun(object):
         for _ in range(case["pre_wd"]):
             self._req_wd()
 
-    def _req_wd(self):
+    def _req_wd(self, reenter=False):
         try:
-            self.wd.append(Watch(self.pipe.proto.when_disconnected()))
+            d = self.pipe.proto.when_disconnected()
         except Exception as e:
             self.raised.append(("when_disconnected", repr(e)))
+            return
+        w = Watch(d)
+        self.wd.append(w)
+        if reenter or (self.case.get("wd_reenter") and len(self.wd) == 1):
+            # a disconnect observer that, while being notified, asks again and submits a command
+            def inside(_):
+                if not self.wd_reentered:
+                    self.wd_reentered = True
+                    self._req_wd()
+                    self._submit({"kind": "plain", "text": "GETINFO version"}, self.post_watches, [])
+            d.addBoth(inside)
 
     def _handler(self, line):
         if not self.boot_done:
@@ -150,6 +168,17 @@ class _CutRun(object):
             lines.append(None) if len(lines) == len(watches) else None
             watches.append(None)
             return
+        n = self.case.get("resubmit", 0)
+        if n and watches is self.watches:
+            # a retry handler: when this command fails, its errback submits n commands at once
+            def retry(f):
+                if f.type.__name__ != "TorDisconnectError":
+                    return f        # only losses are retried; a 5xx before the loss is not
+                for _ in range(n):
+                    self.resubmitted += 1
+                    self._submit({"kind": "plain", "text": "GETINFO version"}, self.post_watches, [])
+                return f
+            d.addErrback(retry)
         watches.append(Watch(d))
         if not self.lost:
             self.pipe.pump()
@@ -253,6 +282,10 @@ def _classify(res, r, case):
         res.label("cut-during-handshake")
     if submitted_after >= 2:
         res.label("post-loss>=2")
+    if r.resubmitted:
+        res.label("resubmit-from-errback-during-loss")
+    if r.wd_reentered:
+        res.label("request-from-inside-disconnect-notification")
     return (r.cut_inside_reply and r.queued_behind_at_cut >= 1) or submitted_after >= 2
 
 
